@@ -99,6 +99,10 @@ def check_date_merge(run, fx, rs):
                     expect[n] = {"month": ("given", ["month_code"]), "month_code": ("given", ["month_code"])}.get(n, ("fallback", [n]))
             for n, want in expect.items():
                 got = src(n)
+                if (case, n) in (("month-only", "month_code"), ("code-only", "month")) and H.sfield(out, n) == H.NONE_V:
+                    # the counterpart of the supplied field may be left for the calendar resolution to derive (it handles
+                    # month without code and code without month); what it must not be is the receiver's stale value
+                    continue
                 if got[0] != want[0] or (want[1][0] not in got[1]):
                     problems.append("%s <- %s (expected %s %s)" % (n, got, want[0], want[1]))
             cal = src("calendar")
@@ -110,6 +114,28 @@ def check_date_merge(run, fx, rs):
                     problems.append("year-month merge sets day to %s" % show(dv))
             run.check(not problems, rule, "%s/%s" % (meth, case), "all fields merged like with like",
                       "%s (%s case): %s" % (meth, case, "; ".join(problems)), f.loc)
+
+        # The merge has no overflow parameter: an error that depends on the VALUE of a supplied numeric field is returned
+        # under constrain as well, where the property demands clamping.  Folded at the month values around the valid range.
+        ev2 = H.Evaluator(fx)
+        ev2.inline = lambda p: p.startswith("temporal_rs::") and "::PartialDate::" not in p
+        for m in (0, 13, 14, 255):
+            vals = {n: H.NONE_V for n in names}
+            vals["month"] = H.some(m)
+            part = H.S(T + "date::PartialDate", tuple((n, vals[n]) for n in names) + (("calendar", H.Sym("given", ("calendar",))),))
+            key = "%s/month=%d-not-rejected-by-merge" % (meth, m)
+            try:
+                r = ev2.call_fn(f, [part, H.Sym("param", ("fallback",))])
+            except (H.Panic, H.Budget):
+                run.ok(rule, key, "merge does not fold at month %d: not decided" % m, f.loc, nontrivial=False)
+                continue
+            if is_err(r):
+                run.bad(rule, key, "%s returns an error for month = %d although it does not know the overflow option: "
+                                   "`with` under constrain cannot clamp this month (from_partial does)" % (meth, m), f.loc)
+            elif isinstance(r, H.V) and r.path == H.OK:
+                run.ok(rule, key, "month %d passes the merge; the calendar resolution clamps or rejects it" % m, f.loc)
+            else:
+                run.ok(rule, key, "merge result at month %d is not a definite Ok/Err: not decided" % m, f.loc, nontrivial=False)
 
 
 def check_required(run, fx, rs):
